@@ -13,6 +13,7 @@ mod fuzz;
 mod idrules;
 mod layout;
 mod master;
+mod mctext;
 mod proto;
 mod quaketext;
 mod settings;
@@ -395,6 +396,7 @@ fn run(cmd: &str, args: &[String], seed: u64, rep: &mut Report) {
             };
             c07x::replay(&ctx, &read_ndjson(arg(&args, "--in").unwrap()), seed, arg_u64(&args, "--reps", 50) as usize, &mut rep);
         }
+        "mctext" => mctext::replay(&read_ndjson(arg(&args, "--in").unwrap()), &mut rep),
         "quaketext" => quaketext::replay(&read_ndjson(arg(&args, "--in").unwrap()), &mut rep),
         "exchange-trace" => {
             let ctx = exchange::Ctx {
